@@ -47,7 +47,7 @@ theorem inrange_exact_old (f : Field) (v : Rat) (p : Profile) (h : Representable
   cases f
   case comp2x2 => exact inrange_comp2x2_old v h p
   all_goals (simp only [Representable] at h; simp only [fieldPipelineOld, ideal, otRoundI16, otRoundU16])
-  case outlineCoord | compOffset | lsb | kernValue | anchorCoord | valueDelta | gvarDelta | hvarDelta | metricI16 =>
+  case outlineCoord | compOffset | lsb | kernValue | anchorCoord | valueDelta | gvarDelta | hvarDelta | metricI16 | compositeBbox =>
     rw [satI16_of_in h]
   case advance | metricU16 => rw [satU16_of_in h]
   case pointDelta | tsb => simp [subI16, h]
